@@ -744,12 +744,18 @@ namespace fixedmath
       int rshbits{ 48 - cxx20::countl_zero( uhi ) };
       uhi >>= rshbits;
       ulo >>= rshbits;
-      return as_fixed(sqrt( as_fixed( (uhi*uhi+ulo*ulo)>>prec_ ) ).v << rshbits)  ;
+      //shift in unsigned type, for arguments close to max() the result is out of range
+      uint64_t const result { static_cast<uint64_t>( sqrt( as_fixed( (uhi*uhi+ulo*ulo)>>prec_ ) ).v ) << rshbits };
+      if( fixed_likely( result <= static_cast<uint64_t>( detail::limits_::max().v ) ) )
+        return as_fixed( static_cast<fixed_internal>( result ) );
+      return quiet_NaN_result();
       }
     //else check lo for underflow and shift left with d
     else if( ulo < (1<<16) )
       {
-      int lshbits{ std::max(cxx20::countl_zero( uhi ) - 30,0) >> 1 };
+      //shifted uhi has to stay below 2^31, the sum of squares must fit in 64 bits
+      int const clz{ cxx20::countl_zero( uhi ) };
+      int lshbits{ std::min( std::max(clz - 30,0) >> 1, clz - 33 ) };
       uhi <<= lshbits;
       ulo <<= lshbits;
       return as_fixed( sqrt( as_fixed( (uhi*uhi+ulo*ulo)>>prec_) ).v  >> lshbits);
